@@ -133,6 +133,29 @@ CLAIMED["C01"] = {
             "List tightness is compared under C10, not here.",
     "design": "DESIGN.md §5 C01",
 }
+CLAIMED["C02"] = {
+    "text": "Coq theorems at the paragraph level, for every text, positive width and pair of columns: re-reading the wrapped lines gives "
+            "the source's word sequence, the wrapped form is a function of the word sequence, hence wrapping the wrapped lines again "
+            "changes nothing (plain mode, whitespace splitter); unclosed frontmatter is a fixpoint of the whole formatter (C07). The "
+            "document-level claim is decided by two-pass runs: the extracted pipeline model and the implementation are compared on the "
+            "inputs of both passes, and format(format(x)) is compared byte for byte with format(x) over random option sets (all widths "
+            "classes, both modes, typography, cleanups, three list spacings) and plaintext mode.",
+    "note": "Marko's re-reading of the canonical spelling and the Markdown-aware splitter are exercised, not proved. 7 genuine defects "
+            "found by the two-pass runs were repaired in /repo; D-25, D-27, D-42, D-50, D-51, D-52 are listed findings.",
+    "design": "DESIGN.md §5 C02",
+}
+CLAIMED["C03"] = {
+    "text": "Coq theorems at the paragraph level: the wrapped form depends on the text only through its whitespace-normal form (any "
+            "splitter, any width, both modes) and, with the whitespace splitter and positive width, only through its word sequence; "
+            "wrapping with any other width and columns first and then with the target ones equals wrapping the source with the target "
+            "ones. Document level: pairs of layouts of one generated content (separate content / layout random streams; soft breaks "
+            "moved, spaces multiplied, lazy and indented continuation, blank-line counts, hard-break spelling, CRLF, uniform indentation) "
+            "that Marko reads as the same document must format byte-identically, and format(format(x,o1),o2) = format(x,o2) for random "
+            "option pairs; model and implementation compared on every input.",
+    "note": "The sentence loop being a function of the word sequence is C11's theorem. Findings D-12, D-27, D-42, D-50..D-52, D-55 listed; "
+            "2 genuine defects found by the re-layout pairs were repaired in /repo.",
+    "design": "DESIGN.md §5 C03",
+}
 PENDING_REASON = "check not built yet in this revision (work in progress; see DESIGN.md §7 staging)"
 
 def main():
